@@ -1,6 +1,6 @@
 """C13 (and the Support/Grid parts of C09, C10, C11, C14): the interval algebra and index conversions of the real
 Support<double>, with every index, window bound and the grid size as 64-bit symbolic values."""
-import ctypes, sys, time
+import ctypes, os, sys, time
 import z3
 from bcommon import *
 
@@ -338,6 +338,22 @@ def chk_lifecycle(ctx):
 
 
 # ------------------------------------------------------------------------------------------------- Grid with data
+def asan_replay(ctx, args):
+    """runs irsym/wrappers/asan_driver.cpp (the same wrappers under AddressSanitizer); returns the report head if ASan fires"""
+    import subprocess
+    work = os.path.dirname(ctx['ll']); drv = os.path.join(work, 'asan_driver')
+    if not os.path.exists(drv):
+        here = os.path.join(os.path.dirname(os.path.dirname(os.path.abspath(__file__))), 'wrappers')
+        r = subprocess.run(['g++', '-std=c++17', '-O1', '-g', '-fsanitize=address', '-fno-omit-frame-pointer', '-I', os.path.join(os.environ.get('VERIF_REPO', '/repo'), 'include'), '-I', here,
+                            os.path.join(here, 'asan_driver.cpp'), '-o', drv], stdout=subprocess.PIPE, stderr=subprocess.STDOUT, text=True)
+        if r.returncode != 0: return None
+    r = subprocess.run([drv] + args, stdout=subprocess.PIPE, stderr=subprocess.STDOUT, text=True, env=dict(os.environ, ASAN_OPTIONS='exitcode=66:detect_leaks=0'), timeout=120)
+    if r.returncode == 66:
+        head = [l.strip() for l in r.stdout.split('\n') if 'ERROR: AddressSanitizer' in l or l.strip().startswith('#0') or l.strip().startswith('#1')]
+        return 'AddressSanitizer: ' + ' | '.join(h[:140] for h in head[:3])
+    return None
+
+
 def chk_grid_data(ctx):
     R = Result('grid-data')
     _grid_data(ctx, R, ctx['nmax_data'], '')
@@ -359,7 +375,13 @@ def _grid_data(ctx, R, nmax, sfx):
         nat.lib.n_gfind.argtypes = [ctypes.c_void_p, ctypes.c_double, ctypes.POINTER(ctypes.c_size_t)]
         rc = nat.lib.n_gfind(G, d(m['x']), ctypes.byref(o))
         pts = [d(m['g_p%d' % k]) for k in range(m['g_n'])]; exp = [k for k, p in enumerate(pts) if p == d(m['x'])]
-        return (rc == 0) != bool(exp) or (exp and o.value != exp[0]), 'native findElement(%s, %r) -> rc=%d index=%d' % (pts, d(m['x']), rc, o.value)
+        bad = (rc == 0) != bool(exp) or (exp and o.value != exp[0])
+        msg = 'native findElement(%s, %r) -> rc=%d index=%d' % (pts, d(m['x']), rc, o.value)
+        if not bad:
+            # no functional symptom: a memory-safety finding (e.g. a read one past the data) is replayed under AddressSanitizer
+            a = asan_replay(ctx, ['gfind', str(m['g_n'])] + [hex(m['g_p%d' % k]) for k in range(m['g_n'])] + [hex(m['x'])])
+            if a: return True, msg + ' | ' + a
+        return bad, msg
     for o in run_paths(ctx, R, W, '@w_gfind', [bv(go.base), x], 'find-element' + sfx, native_find):
         present = z3.Or([z3.And(z3.UGT(g['n'], k), z3.fpEQ(F(g['pts'][k]), F(x))) for k in range(nmax)])
         if o.kind == 'throw': prove(R, W, o.st, z3.And(z3.Not(present), o.val[0] == EC['INCONSISTENT_DATA']), 'find-element' + sfx + '/refuses-only-absent-values', native_find)
